@@ -593,7 +593,14 @@ mod run {
             }
             ctx.set_free();
             kvarn::verif::set_hook(None);
-            let code = if instances[0].mgr.is_none() && !p.last_attempt { 5 } else { 4 };
+            // 5: execute() did not return on the first attempt (ports?); 6: it returned, but nobody answers at the path; 4: it did not return
+            let code = if instances[0].mgr.is_none() && !p.last_attempt {
+                5
+            } else if instances[0].mgr.is_some() {
+                6
+            } else {
+                4
+            };
             for inst in &mut instances {
                 if let Some(m) = &inst.mgr {
                     m.shutdown();
